@@ -7,7 +7,10 @@
 static void vf_trace_step(int kind, const volatile void* addr, uintptr_t oldv, uintptr_t newv, int ok) { (void)kind; (void)addr; (void)oldv; (void)newv; (void)ok; }
 
 #define NF 3
-static _Atomic(size_t) bm[NF];
+/* the words behind the bitmap play the role of the next bitmap of an arena (blocks_dirty follows blocks_inuse): all clear, and they
+   must still be clear at the end */
+static struct { _Atomic(size_t) w[NF]; _Atomic(size_t) behind[2]; } B;
+#define bm (B.w)
 static size_t blocked_tail = 0;     /* number of blocked top bits in the last field */
 typedef struct { int t; int nops; int purger; } brole_t;
 static brole_t broles[VF_MAXT];
@@ -22,7 +25,7 @@ static void log_words(const char* ev) {
     for (int b = 0; b < 64; b++) if (w & ((size_t)1 << b)) { vf_logf("%s%d", first ? "" : ",", f * 64 + b); first = 0; }
     vf_logf("]");
   }
-  vf_logf("]}"); vf_log_line_end();
+  vf_logf("],\"behind\":[%zu,%zu]}", atomic_load_explicit(&B.behind[0], memory_order_relaxed) != 0 ? (size_t)1 : (size_t)0, atomic_load_explicit(&B.behind[1], memory_order_relaxed) != 0 ? (size_t)1 : (size_t)0); vf_log_line_end();
 }
 static void* bworker(void* arg) {
   brole_t* r = (brole_t*)arg;
@@ -77,10 +80,22 @@ static int run_one(const char* out, uint64_t seed) {
   { struct sigaction sa; memset(&sa, 0, sizeof(sa)); sa.sa_handler = vf_crash_handler; sigaction(SIGSEGV, &sa, NULL); sigaction(SIGABRT, &sa, NULL); sigaction(SIGALRM, &sa, NULL); }
   alarm(20);
   vf_sched_begin(seed);
-  vf_region_add((void*)bm, sizeof(bm));
+  vf_region_add((void*)&B, sizeof(B));
   for (int f = 0; f < NF; f++) atomic_store(&bm[f], 0);
+  atomic_store(&B.behind[0], 0); atomic_store(&B.behind[1], 0);
   blocked_tail = vf_randn(3) == 0 ? 0 : 1 + vf_randn(40);
   if (blocked_tail > 0) atomic_store(&bm[NF - 1], ~(size_t)0 << (64 - blocked_tail));
+  int mode = (int)vf_randn(3);
+  if (mode == 1) {          /* a nearly full bitmap (as after a long history): only short runs are free, one of them at the very top */
+    size_t k = 1 + vf_randn(30);
+    for (int f = 0; f < NF; f++) { size_t w = 0; for (int b = 0; b < 64; b++) if (vf_randn(8) != 0) w |= (size_t)1 << b; atomic_store(&bm[f], w); }
+    atomic_store(&bm[NF - 1], (atomic_load(&bm[NF - 1]) | (~(size_t)0 >> k)) & (~(size_t)0 >> k));   /* top k bits free, the rest of the last word taken */
+  }
+  else if (mode == 2 && blocked_tail == 0) {   /* free runs that straddle the word boundaries and the top */
+    size_t k = 1 + vf_randn(40), j = 1 + vf_randn(40);
+    atomic_store(&bm[NF - 1], (~(size_t)0 >> k) & (~(size_t)0 << j));
+    atomic_store(&bm[0], ((size_t)1 << (64 - j)) - 1);
+  }
   log_words("init");
   int nt = 2 + (int)vf_randn(3);
   for (int k = 0; k < nt; k++) { broles[k + 1].t = k + 1; broles[k + 1].nops = 4 + (int)vf_randn(6); broles[k + 1].purger = (k == nt - 1 && vf_randn(2)); vf_spawn(bworker, &broles[k + 1]); }
